@@ -24,6 +24,7 @@ import LfsModel.Checkout
 import LfsModel.LogScan
 import LfsModel.Prune
 import LfsModel.Fsck
+import LfsModel.Rewrite
 open Lfs
 
 namespace Oracle
@@ -526,6 +527,33 @@ def c13 : List String → String
      | _, _ => "bad-op")
   | _ => "bad-op"
 
+/-! ### C12 -/
+def c12 : List String → String
+  | ["rewrite", allow, conv, commits] =>
+    -- allow: selected path indices; conv: `path:blob` pairs the blob function changes (to blob+1000);
+    -- commits: `|`-separated trees of `path:mode:blob` entries, oldest first
+    (match natList allow with
+     | none => "bad-op"
+     | some al =>
+       let convs : List (Nat × Nat) := if conv == "-" then [] else (conv.splitOn ",").filterMap fun t =>
+         match t.splitOn ":" with
+         | [p, b] => (do let p ← p.toNat?; let b ← b.toNat?; pure (p, b))
+         | _ => none
+       let fn : Nat → Nat → Nat := fun p b => if convs.contains (p, b) then b + 1000 else b
+       let trees? : Option (List (List Rw.Entry)) := (commits.splitOn "|").mapM fun ct =>
+         if ct == "-" then some [] else (ct.splitOn ",").mapM fun t =>
+           match t.splitOn ":" with
+           | [p, m, b] => (do let p ← p.toNat?; let m ← m.toNat?; let b ← b.toNat?; pure (⟨p, m, b⟩ : Rw.Entry))
+           | _ => none
+       match trees? with
+       | none => "bad-op"
+       | some trees =>
+         let cs : List Rw.Commit := (List.range trees.length).zip trees |>.map fun (i, t) => { id := i, parents := [], hdr := 0, tree := t }
+         let st := Rw.rewrite (fun p => al.contains p) fn (fun c => c.tree.length) cs
+         String.intercalate "|" (st.out.reverse.map fun c =>
+           if c.tree.isEmpty then "-" else String.intercalate "," (c.tree.map fun e => s!"{e.path}:{e.mode}:{e.blob}")))
+  | _ => "bad-op"
+
 def answer (line : String) : String :=
   match line.splitOn " " with
   | "C07" :: rest => c07 rest
@@ -545,6 +573,7 @@ def answer (line : String) : String :=
   | "C04" :: rest => c04 rest
   | "C05" :: rest => c05 rest
   | "C13" :: rest => c13 rest
+  | "C12" :: rest => c12 rest
   | ["C01", "mergeout", o, n] => (match unhex o, unhex n with
       | some o, some n => hex (Flt.mergeDriverOutput o n) | _, _ => "bad-op")
   | _ => "bad-op"
